@@ -143,6 +143,24 @@ Definition smpp_to_time (s : list Z) : res timeval :=
   end.
 
 (* serialisation for the harness *)
+(* FixedOffset.from_timezone(offset_str) (utils.py:63): the time-zone part of an ISO 8601 datetime, '+hhmm' or '-hhmm' (empty = UTC),
+   to the UTC offset in minutes *)
+Definition from_timezone (s : list Z) : res Z :=
+  match s with
+  | [] => Ok 0
+  | _ =>
+    let sign := if existsb (Z.eqb 43) s then 1 else -1 in
+    match py_int (slice 1 3 s) with
+    | None => Err EXN_ValueError
+    | Some h =>
+      match py_int (skipn 3 s) with
+      | None => Err EXN_ValueError
+      | Some m => Ok (sign * (m + h * 60))
+      end
+    end
+  end.
+Definition ser_res_z (r : res Z) : list Z := match r with Ok z => [0; z] | Err e => [1; e] end.
+
 Definition ser_time (t : timeval) : list Z :=
   match t with
   | TNone => [0]
